@@ -18,6 +18,8 @@ import unicodedata
 
 from ..refmodel import bitset as B
 
+from .. import runner
+
 NAME = 'c13g'
 
 VERSIONS = ['16.0.0', '15.1.0', '15.0.0', '14.0.0', '13.0.0', '12.1.0', '11.0.0', '10.0.0', '9.0.0', '8.0.0',
@@ -206,6 +208,29 @@ def run_case(case, world):
             seen.append((n, b))
         stats['blocks_checked'] = stats.get('blocks_checked', 0) + len(seen)
 
+    def block_digests():
+        out = {}
+        for n in all_block_names():
+            try:
+                out[n] = hashlib.sha256(repr(list(unicode_block(n).codepoints)).encode()).hexdigest()[:12]
+            except KeyError:
+                pass
+        return out
+
+    def fresh_blocks(version):
+        """Blocks of `version` as a process that has installed nothing else sees them."""
+        def child():
+            elementpath.install_unicode_data(version)
+            return block_digests()
+        st, val = runner.fork_call(child, timeout=60)
+        return val if st == 'ok' and isinstance(val, dict) and 'harness_error' not in val else None
+
+    # references are taken now, from children of this process while it has installed nothing yet
+    fresh_cache = {}
+    install_versions = [op.get('version') for op in case['ops'] if op['op'] == 'install' and not op.get('fault')]
+    if len(install_versions) > 1:
+        for v_ in sorted(set(install_versions), key=str)[:4]:
+            fresh_cache[v_] = fresh_blocks(v_)
     prev = check_tables('start', ['start'])
     prev_ver = unicode_version()
     for idx, op in enumerate(case['ops']):
@@ -248,6 +273,17 @@ def run_case(case, world):
                 prev = check_tables(kind, feats)
                 prev_ver = unicode_version()
                 check_blocks(feats)
+                if kind == 'install' and stats['installs'] > 1 and op.get('fault') is None:
+                    # the blocks are a function of the installed version: the same as in a process that has never
+                    # had another version installed
+                    ver_ = unicode_version()
+                    ref_ = fresh_cache.get(op['version'])
+                    if ref_ is not None:
+                        now_ = block_digests()
+                        diff_ = sorted(n for n in set(ref_) | set(now_) if ref_.get(n) != now_.get(n))
+                        if diff_:
+                            violate('STALE_CACHE', 'blocks-depend-on-install-history', 'after installing %s the blocks %r '
+                                    'differ from those of a process that installed only this version' % (ver_, diff_[:4]), feats)
         elif kind == 'use':
             try:
                 translate_pattern(op['pattern'])
